@@ -322,10 +322,33 @@ fn builtin_cases(thorough: bool) -> Vec<Case> {
     out
 }
 
-pub fn generate(seed: u64, n: usize, thorough: bool, _corpus: Option<&str>) -> Vec<Case> {
+/// corpus file name → (perturbation class, position) so that a replayed seed gets the signature of its root cause
+fn corpus_class(name: &str) -> (&'static str, &'static str) {
+    if name.contains("union") || name.contains("setfn") { ("setfn-scalar", "const") }
+    else if name.contains("block") || name.contains("aggregate") { ("block-as-value", "const") }
+    else if name.contains("domain-var") { ("domain-var", "const") }
+    else if name.contains("objective") { ("string", "objective") }
+    else if name.contains("any") { ("mixed-array", "const") }
+    else { ("corpus", "corpus") }
+}
+
+pub fn generate(seed: u64, n: usize, thorough: bool, corpus: Option<&str>) -> Vec<Case> {
     let mut r = Rng::new(crate::pre_gen::spread_seed(seed));
     let mut cases = vec![];
     let pool = pool();
+    if let Some(dir) = corpus {
+        if let Ok(rd) = std::fs::read_dir(dir) {
+            let mut files: Vec<_> = rd.filter_map(|e| e.ok()).map(|e| e.path()).filter(|p| p.extension().map(|x| x == "rooc").unwrap_or(false)).collect();
+            files.sort();
+            for f in files {
+                if let Ok(s) = std::fs::read_to_string(&f) {
+                    let name = f.file_name().unwrap().to_string_lossy().to_string();
+                    let (pert, pos) = corpus_class(&name);
+                    cases.push(judge(&s, vec!["stream:corpus".into(), format!("corpus:{}", name)], pert, pos));
+                }
+            }
+        }
+    }
     // ---- templates: every position × every perturbation (exhaustive in the thorough tier, sampled otherwise)
     for (name, p) in templates() {
         let src = print_prog(&p);
